@@ -81,8 +81,11 @@ func vh_hash_nilmsg(fn, d int) {
 func vh_hash_twice(fn, m, d, mode int) {
 	msg1 := vNondetBytes("msg1", m)
 	d1 := d
-	if mode == 2 { // the very first call of the process uses an oversize DST
+	if mode == 2 || mode == 4 { // the very first call of the process uses an oversize DST
 		d1 = 300
+	}
+	if mode == 3 && d > 1 { // the second DST is exactly one byte longer than the first
+		d1 = d - 1
 	}
 	dst1 := vNondetBytes("dst1", d1)
 	var msg, dst []byte
